@@ -4,14 +4,14 @@
 (* is printed as one JSON line (BEH marker) and replayed on the real code.  *)
 EXTENDS Registry, Json
 
-CONSTANTS Depth, Classes, Fallback, CfgSW, CfgNidl
+CONSTANTS Depth, Classes, Fallback, CfgSW, CfgNidl, CfgSO
 
 VARIABLES st, hist, done
 
 vars == <<st, hist, done>>
 
 \* constructive sets of authorised requests (cases A, B, C of C01) and their one-field mutations
-Plain(k, e, n, life) == Merge(Merge([op |-> "Fetch", k |-> k, e |-> e, n |-> n, life |-> life], NoWrap), NoRewrap)
+Plain(k, e, n, life) == Merge(Merge([op |-> "Fetch", k |-> k, e |-> e, n |-> n, life |-> life, selfinfo |-> FALSE], NoWrap), NoRewrap)
 AuthA(s) == {Plain(k, s.nodes[k].enc, s.nodes[k].nonce, "default") : k \in Present(s)}
 AuthB(s) == {Plain(k, e, t, l) : k \in CertKeys, e \in EncKeys,
                                  t \in {x \in Tokens : Live(s.tokens[x])}, l \in Lives}
@@ -24,6 +24,8 @@ AuthSet(s) == {r \in AuthA(s) \cup AuthB(s) \cup AuthC(s) : Authorised(s, r)}
 Mutations(r) ==
   {[r EXCEPT !.k = x] : x \in CertKeys} \cup {[r EXCEPT !.e = x] : x \in EncKeys}
   \cup {[r EXCEPT !.n = x] : x \in AllNonces}
+  \* an unauthorised request that merely CLAIMS registration info: self-asserted info plus a junk sealed blob
+  \cup {[r EXCEPT !.k = x, !.selfinfo = TRUE, !.ww = "W2", !.wk = x, !.wn = r.n] : x \in CertKeys}
   \cup (IF HasWrapped(r) THEN {[r EXCEPT !.ww = "W2"]} \cup {[r EXCEPT !.wk = x] : x \in CertKeys}
                                \cup {[r EXCEPT !.wn = x] : x \in Nonces \cup Tokens} ELSE {})
   \cup (IF HasRewrapped(r) THEN {[r EXCEPT !.rwith = x] : x \in CertKeys \cup {"rand"}}
@@ -31,6 +33,7 @@ Mutations(r) ==
                                \cup {[r EXCEPT !.rk = x] : x \in CertKeys}
                                \cup {[r EXCEPT !.rn = x] : x \in Nonces \cup Tokens} ELSE {})
   \cup {[r EXCEPT !.life = x] : x \in Lives}
+  \cup {[r EXCEPT !.selfinfo = TRUE]}
 NearSet(s) == {m \in UNION {Mutations(r) : r \in AuthSet(s)} : ~Authorised(s, m)}
 
 RE(S) == RandomElement(S)
@@ -38,7 +41,7 @@ SubRand(i, muts) ==
   [op |-> "Submit", api |-> RE({"authorize", "fetch"}), mut |-> RE(muts), nb |-> RE(GridNB), na |-> RE(GridNA),
    sknb |-> RE(SkewNB), skna |-> RE(SkewNA), k |-> RE(CertKeys), e |-> RE(EncKeys), n |-> RE(Nonces), prime |-> RE(BOOLEAN)]
 GenRand(i, signers) ==
-  [op |-> "GenCerts", k |-> RE(CertKeys), nid |-> RE(NodeIds \cup {NONE}), order |-> RE(Perms(CertKeys)),
+  [op |-> "GenCerts", k |-> RE(CertKeys \cup {"kx"}), nid |-> RE(NodeIds \cup {NONE}), order |-> RE(Perms(CertKeys)),
    nsig |-> RE(signers), hasState |-> RE(BOOLEAN), ssig |-> RE(signers \cup {NONE}), skip |-> RE({FALSE, FALSE, FALSE, TRUE})]
 RotRand(i, srcs, nonces) ==
   [op |-> "Rotate", k |-> RE(CertKeys), nid |-> RE(NodeIds \cup {NONE}), order |-> RE(Perms(CertKeys)),
@@ -59,7 +62,7 @@ OpsOf(cls, s) ==
     [] cls = "FetchAuth"  -> AuthSet(s)
     [] cls = "FetchNear"  -> NearSet(s)
     [] cls = "FetchAny"   -> {Merge(Merge([op |-> "Fetch", k |-> RandomElement(CertKeys), e |-> RandomElement(EncKeys),
-                                            n |-> RandomElement(AllNonces), life |-> RandomElement(Lives)],
+                                            n |-> RandomElement(AllNonces), life |-> RandomElement(Lives), selfinfo |-> RandomElement({FALSE, FALSE, TRUE})],
                                             wc[1]), wc[2]) : wc \in {RandomElement(WrapCombos)}}
     [] cls = "Submit"     -> {v \in {SubRand(i, Muts) : i \in 1..6} : v \in SubmitOps}
     [] cls = "SubmitWin"  -> {v \in {SubRand(i, {"none"}) : i \in 1..6} : v \in SubmitOps}
@@ -75,7 +78,7 @@ OpsOf(cls, s) ==
 
 Good(cls, s) == {o \in OpsOf(cls, s) : Apply(s, o).res # "skip"}
 
-Init == st = InitState([sw |-> CfgSW, nidl |-> CfgNidl]) /\ hist = <<>> /\ done = FALSE
+Init == st = InitState([sw |-> CfgSW, nidl |-> CfgNidl, so |-> CfgSO]) /\ hist = <<>> /\ done = FALSE
 
 Step ==
   /\ Len(hist) < Depth
